@@ -837,9 +837,11 @@ class CookLevel(FragmentTask):
     last = staticmethod(_src("for file_idxs, bfile_result in zip(box_index_map, output)"))
     inline = ("amr_kitchen.plotfile_cooker.PlotfileCooker.map_bfile_offsets",)
 
-    def __init__(self, serial):
-        self.serial = serial
-        self.name = f"cook.level-body[{'serial' if serial else 'pool'}]"
+    def __init__(self, serial, short=False):
+        """short: the knife of a file with several boxes returns one result FEWER than the file has boxes (an input binary file that
+        ends early): the level body must not return normally"""
+        self.serial, self.short = serial, short
+        self.name = f"cook.level-body[{'serial' if serial else 'pool'}" + (", a knife comes back with fewer results than boxes]" if short else "]")
 
     def setup(self, ex):
         ctx = ex.ctx
@@ -860,6 +862,8 @@ class CookLevel(FragmentTask):
             fi = files.index(f)
             called.append(f)
             n = nper[f]
+            if self.short and n >= 2:
+                n = n - 1
             return (Vec([NEWOFF(fi, t) for t in range(n)], "array"),
                     NDArray([n, 2], lambda ix, fi=fi: MN(fi, to_z3(ix[0]), to_z3(ix[1])), "f8"),
                     NDArray([n, 2], lambda ix, fi=fi: MX(fi, to_z3(ix[0]), to_z3(ix[1])), "f8"))
@@ -872,6 +876,9 @@ class CookLevel(FragmentTask):
 
     def post(self, ex, inp, out):
         ctx = ex.ctx
+        if self.short:
+            ctx.oblige("fault.a-short-worker-result-does-not-pass-for-a-level", out.kind == "exc", "P")
+            return
         ctx.oblige("raises-nothing", out.kind == "ret", "P", note=str(out.exc) if out.kind != "ret" else "")
         if out.kind != "ret":
             return
@@ -953,7 +960,7 @@ class CookScatter(FragmentTask):
 
 
 def cook_tasks(tier):
-    return [CookTask(CFILES[0]), CookTask(CFILES[1]), CookTaskList(), CookScatter(), CookScatter(serial=True), CookLevel(True), CookLevel(False), __import__("props.scatter_u", fromlist=["cook_scatter"]).cook_scatter()]
+    return [CookTask(CFILES[0]), CookTask(CFILES[1]), CookTaskList(), CookScatter(), CookScatter(serial=True), CookLevel(True), CookLevel(False), CookLevel(True, short=True), __import__("props.scatter_u", fromlist=["cook_scatter"]).cook_scatter()]
 
 
 def cook_canaries():
